@@ -236,6 +236,12 @@ func (g *Gen) instr(b *ssa.BasicBlock, in ssa.Instruction) {
 			g.outOfSub = append(g.outOfSub, "address of element escapes: "+g.P.posString(v.Pos()))
 		}
 	case *ssa.Index:
+		if isStringT(v.X.Type()) {
+			x, k := g.v(v.X), g.v(v.Index)
+			g.oblige("bounds", g.srcOf(v.Pos(), "index"), "", nil, true, and("(<= 0 "+k+")", "(< "+k+" (slen "+x+"))"), v.Pos())
+			g.guard(eq(g.v(v), "(sat "+x+" "+k+")"))
+			return
+		}
 		// index of array value or type-param; arrays as values are opaque
 		i := g.v(v.Index)
 		if at, ok := v.X.Type().Underlying().(*types.Array); ok {
